@@ -290,6 +290,7 @@ mpn_gcdext (mp_ptr gp, mp_ptr up, mp_size_t *usizep,
     mp_size_t nn;
 
     mpn_hgcd_matrix_init (&M, n - p, tp);
+    MPIR_VERIF_HIT (MPIR_VERIF_GCDEXT_HGCD_STEP);
     nn = mpn_hgcd (ap + p, bp + p, n - p, &M, tp + matrix_scratch);
     if (nn > 0)
       {
@@ -337,6 +338,7 @@ mpn_gcdext (mp_ptr gp, mp_ptr up, mp_size_t *usizep,
       mp_size_t nn;
 
       mpn_hgcd_matrix_init (&M, n - p, tp);
+      MPIR_VERIF_HIT (MPIR_VERIF_GCDEXT_HGCD_STEP);
       nn = mpn_hgcd (ap + p, bp + p, n - p, &M, tp + matrix_scratch);
       if (nn > 0)
 	{
